@@ -41,7 +41,18 @@ def uniform_prim(md, st_, n):
     return [np.full(n, rho), np.full(n, st_["mach"] * c), np.full(n, p)]
 
 
-def resolve1d(md, st_, kind, inlet, outlet):
+LOWMACH = 3e-5      # below this Mach number the velocity deduced from a total/static pressure ratio is mostly rounding: treated as rest
+
+
+def _lowmach_slack(m, gamma=1.4):
+    """the isentropic relation is flat at M = 0: M^2 = 2/(g-1) ((ptot/p)^((g-1)/g) - 1) carries an absolute rounding error ~ 2 ulp/(g-1), hence the Mach
+    number an error ~ ulp/((g-1) M) and the enthalpy flux u*H (H = c^2/(g-1)) one of ~ ulp/((g-1)^2 M) in units of rho c^3.  Allowance (4x that) for
+    0 < M < 1e-2, on top of the usual tolerance; measured worst case: 0.23 x ulp/((g-1)^2 M)."""
+    a = abs(m)
+    return 4 * 2.2e-16 / (a * (gamma - 1.0) ** 2) if 0.0 < a < 1e-2 else 0.0
+
+
+def resolve1d(md, st_, kind, inlet, outlet, lowmach=False):
     """-> (state descriptor with the Mach number moved into the regime of `kind`, bcL, bcR)"""
     name = md["name"]
     s = dict(st_)
@@ -57,7 +68,11 @@ def resolve1d(md, st_, kind, inlet, outlet):
         m = 0.0
     elif kind == "subsonic":
         # velocity from a total/static pressure ratio is ill-conditioned for 0 < M << 1 (error ~ ulp/(2M)): rest or M >= 3e-3
-        m = 0.95 * m / 3.0 if abs(m) >= 0.01 else 0.0
+        # (solves: rest or M >= 3e-3; the operator-level checks also cover 3e-5 <= M < 3e-3 with the conditioning allowance _lowmach_slack)
+        if lowmach and st_.get("lowmach") is not None:
+            m = math.copysign(st_["lowmach"], m if m != 0 else 1.0)
+        else:
+            m = 0.95 * m / 3.0 if abs(m) >= 0.01 else 0.0
     elif kind == "supersonic":
         m = math.copysign(1.05 + 2.0 * abs(m) / 3.0, m if m != 0 else 1.0)
     s["mach"] = m
@@ -107,7 +122,8 @@ def _state1d(md):
         return st.builds(lambda u: dict(u=u), st.one_of(gen.sfloat(-2, 2), st.just(1.0)).filter(lambda u: not (name == "burgers" and u == 0.0)))
     if name == "shallowwater":
         return st.builds(lambda h, m: dict(lnh=h, mach=m), ln, mach)
-    return st.builds(lambda r, p, m: dict(lnrho=r, lnp=p, mach=m), ln, ln, mach)
+    low = st.one_of(st.none(), st.none(), st.none(), gen.logf(-4.5, -2.0))       # occasionally a very low subsonic Mach number (operator-level checks only)
+    return st.builds(lambda r, p, m, lo: dict(lnrho=r, lnp=p, mach=m, lowmach=lo), ln, ln, mach, low)
 
 
 def _kinds(md):
@@ -150,14 +166,14 @@ def strat_solve1d(tier):
     return _models().flatmap(lambda md: _cfg1d(md, nmax, True, tier))
 
 
-def _build1d(case, model=None, reverse=False):
+def _build1d(case, model=None, reverse=False, lowmach=False):
     md = case["model"]
     ust = dict(case["ustate"])
     if reverse:          # the same problem with the flow in the other direction (used with the SAME model object)
         for key in ("mach", "u"):
             if key in ust:
                 ust[key] = -ust[key]
-    s, bcL, bcR = resolve1d(md, ust, case["kind"], case["inlet"], case["outlet"])
+    s, bcL, bcR = resolve1d(md, ust, case["kind"], case["inlet"], case["outlet"], lowmach=lowmach)
     if model is None:
         model = cases.build_model(md)
     mesh = cases.build_mesh(case["mesh"])
@@ -170,17 +186,17 @@ def _build1d(case, model=None, reverse=False):
     return md, smd, s, bcL, bcR, model, mesh, xf, n, prim, disc, f
 
 
-def _tolfac(md, bcL, bcR):
+def _tolfac(md, bcL, bcR, mach=0.0):
     inout = any(b["type"] not in ("per", "dirichlet", "sym", "inf", "outsup") for b in (bcL, bcR))
-    return (1e-11 / (md.get("gamma", 1.4) - 1.0)) if inout else 1e-12
+    return (1e-11 / (md.get("gamma", 1.4) - 1.0) + _lowmach_slack(mach, md.get("gamma", 1.4))) if inout else 1e-12
 
 
 def check_op1d(case):
-    md, smd, s, bcL, bcR, model, mesh, xf, n, prim, disc, f = _build1d(case)
+    md, smd, s, bcL, bcR, model, mesh, xf, n, prim, disc, f = _build1d(case, lowmach=True)
     r = [np.asarray(x, dtype=float) for x in disc.rhs(f)]
     dxmin = float(np.min(xf[1:] - xf[:-1]))
     scales = [float(np.max(x)) for x in sim.natural_scales(smd, prim)]
-    tf = _tolfac(smd, bcL, bcR)
+    tf = _tolfac(smd, bcL, bcR, s.get("mach", 0.0))
     worst = 0.0
     for k in range(len(r)):
         require(np.all(np.isfinite(r[k])), "residual-finite", "residual of a uniform state is not finite (%s, bc %s/%s)" % (md["name"], bcL["type"], bcR["type"]))
@@ -191,9 +207,9 @@ def check_op1d(case):
     target(worst, "uniform-residual/tol")
     # the same model OBJECT then serves the reversed flow (inlet and outlet exchanged): a model must not remember the first problem it saw
     if md["name"] not in ("convection",):
-        md2, smd2, s2, bcL2, bcR2, model2, mesh2, xf2, n2, prim2, disc2, f2 = _build1d(case, model=model, reverse=True)
+        md2, smd2, s2, bcL2, bcR2, model2, mesh2, xf2, n2, prim2, disc2, f2 = _build1d(case, model=model, reverse=True, lowmach=True)
         r2 = [np.asarray(x, dtype=float) for x in disc2.rhs(f2)]
-        tf2 = _tolfac(smd2, bcL2, bcR2)
+        tf2 = _tolfac(smd2, bcL2, bcR2, s2.get("mach", 0.0))
         for k in range(len(r2)):
             require(np.all(np.isfinite(r2[k])), "residual-finite", "residual of a uniform state is not finite for the reversed flow on the same model object (bc %s/%s)" % (bcL2["type"], bcR2["type"]))
             e = float(np.max(np.abs(r2[k]))) * dxmin / scales[k]
@@ -205,7 +221,7 @@ def check_op1d(case):
 
 def _mlabel(m):
     a = abs(m)
-    return "0" if a == 0 else "<1" if a < 1 else "1" if a == 1 else ">1"
+    return "0" if a == 0 else "<3e-3" if a < 3e-3 else "<1" if a < 1 else "1" if a == 1 else ">1"
 
 
 def check_solve1d(case):
@@ -283,7 +299,7 @@ def _speed(md, prim):
 KINDS2D = ["per", "dirichlet", "subsonic-x", "subsonic-y", "supersonic-x", "supersonic-y", "supersonic-angled", "rest-walls", "dirichlet-per"]
 
 
-def resolve2d(g, st_, kind, other, outlet_rest):
+def resolve2d(g, st_, kind, other, outlet_rest, lowmach=False):
     s = dict(st_)
     rho, p = math.exp(s["lnrho"]), math.exp(s["lnp"])
     c = math.sqrt(g * p / rho)
@@ -311,6 +327,8 @@ def resolve2d(g, st_, kind, other, outlet_rest):
         return s, dict(left=sym, right=sym, bottom=sym, top=sym)
     sub = kind.startswith("subsonic")
     mm = (0.95 * m / 3.0 if m >= 0.01 else 0.0) if sub else 1.05 + 2.0 * m / 3.0
+    if sub and lowmach and st_.get("lowmach") is not None:
+        mm = st_["lowmach"]
     s["mach"] = mm
     pt, rt = _tot(g, rho, (mm * c) ** 2, p)
     pt, rt = float(pt), float(rt)
@@ -332,8 +350,9 @@ def resolve2d(g, st_, kind, other, outlet_rest):
 
 def _cfg2d(nmax, solve, tier):
     ln = st.one_of(gen.f(-4.6, 4.6), st.just(0.0))
-    ust = st.builds(lambda r, p, m, a: dict(lnrho=r, lnp=p, mach=m, angle=a), ln, ln, st.one_of(gen.f(0, 3), st.sampled_from([0.0, 0.5, 1.0, 2.0])),
-                    st.one_of(gen.f(-math.pi, math.pi), st.sampled_from([0.0, math.pi / 2, math.pi / 4, -math.pi / 2, math.pi])))
+    ust = st.builds(lambda r, p, m, a, lo: dict(lnrho=r, lnp=p, mach=m, angle=a, lowmach=lo), ln, ln, st.one_of(gen.f(0, 3), st.sampled_from([0.0, 0.5, 1.0, 2.0])),
+                    st.one_of(gen.f(-math.pi, math.pi), st.sampled_from([0.0, math.pi / 2, math.pi / 4, -math.pi / 2, math.pi])),
+                    st.one_of(st.none(), st.none(), st.none(), gen.logf(-4.5, -2.0)))
     ex, im = cases.integrator_names()
     base = st.builds(lambda md, me, num, fl, s, kind, oth, orest: dict(model=md, mesh2d=me, num=num, flux=fl, ustate=s, kind=kind, other=oth, outlet_rest=orest),
                      gen.model_euler2d(), gen.mesh2d(1, nmax), gen.num2d_any(), st.sampled_from(cases.flux_names(dict(name="euler2d"))), ust, st.sampled_from(KINDS2D),
@@ -351,10 +370,10 @@ def strat_solve2d(tier):
     return _cfg2d(4 if tier == "quick" else 8, True, tier)
 
 
-def _build2d(case):
+def _build2d(case, lowmach=False):
     md = case["model"]
     g = md.get("gamma", 1.4)
-    s, bc = resolve2d(g, case["ustate"], case["kind"], case["other"], case["outlet_rest"])
+    s, bc = resolve2d(g, case["ustate"], case["kind"], case["other"], case["outlet_rest"], lowmach=lowmach)
     model = cases.build_model(md)
     mesh = cases.build_mesh2d(case["mesh2d"])
     n = case["mesh2d"]["nx"] * case["mesh2d"]["ny"]
@@ -369,13 +388,13 @@ def _comps(data):
 
 
 def check_op2d(case):
-    md, s, bc, model, mesh, n, prim, disc, f = _build2d(case)
+    md, s, bc, model, mesh, n, prim, disc, f = _build2d(case, lowmach=True)
     r = _comps(disc.rhs(f))
     dmin = min(case["mesh2d"]["lx"] / case["mesh2d"]["nx"], case["mesh2d"]["ly"] / case["mesh2d"]["ny"])
     sc = sim.natural_scales(md, prim)
     scales = [float(np.max(sc[0])), float(np.max(sc[1])), float(np.max(sc[1])), float(np.max(sc[2]))]
     inout = case["kind"].startswith("sub") or case["kind"].startswith("super")
-    tf = (1e-11 / (md.get("gamma", 1.4) - 1.0)) if inout else 1e-12
+    tf = (1e-11 / (md.get("gamma", 1.4) - 1.0) + _lowmach_slack(s["mach"], md.get("gamma", 1.4))) if inout else 1e-12
     worst = 0.0
     for k in range(4):
         require(np.all(np.isfinite(r[k])), "residual-finite-2d", "2-D residual of a uniform state is not finite (%s)" % case["kind"])
